@@ -51,6 +51,8 @@ func (o pgOp) String() string {
 		return fmt.Sprintf("h%d.Put(%s,%s)", o.H, o.Key, o.Val)
 	case "get":
 		return fmt.Sprintf("h%d.Get(%s)", o.H, o.Key)
+	case "dump":
+		return fmt.Sprintf("h%d.Dump(%s)+walk", o.H, o.Key)
 	case "prefix", "session", "lang":
 		return fmt.Sprintf("h%d.Set%s(%q)", o.H, o.Kind, o.Arg)
 	}
@@ -66,7 +68,10 @@ func genPgHistory(t *tape.Tape) []pgOp {
 	for u := 0; u < units; u++ {
 		t.Begin("unit")
 		h := t.Int(nh)
-		switch t.Weighted(4, 3, 4, 1, 1) {
+		switch t.Weighted(4, 3, 4, 1, 1, 1) {
+		case 5:
+			// a listing: Dump, walk to the end, Close
+			ops = append(ops, pgOp{H: h, Kind: "dump", Key: []string{"k", "k1", "a"}[t.Int(3)]})
 		case 0:
 			valN++
 			ops = append(ops, pgOp{H: h, Kind: "put", Key: keys[t.Int(2)], Val: fmt.Sprintf("v%d", valN)})
@@ -76,10 +81,13 @@ func genPgHistory(t *tape.Tape) []pgOp {
 			ops = append(ops, pgOp{H: h, Kind: "start"})
 			n := t.Range(1, 3)
 			for i := 0; i < n; i++ {
-				if t.Chance(2, 3) {
+				switch {
+				case t.Chance(1, 8):
+					ops = append(ops, pgOp{H: h, Kind: "dump", Key: []string{"k", "k1", "a"}[t.Int(3)]})
+				case t.Chance(2, 3):
 					valN++
 					ops = append(ops, pgOp{H: h, Kind: "put", Key: keys[t.Int(2)], Val: fmt.Sprintf("v%d", valN)})
-				} else {
+				default:
 					ops = append(ops, pgOp{H: h, Kind: "get", Key: keys[t.Int(2)]})
 				}
 			}
@@ -261,6 +269,20 @@ func runPgHistory(ops []pgOp, faults map[int]int) *pgResult {
 			pm, pat = world.Guard(func() { err = h.store.Put(ctx, []byte(op.Key), []byte(op.Val)) })
 		case "get":
 			pm, pat = world.Guard(func() { got, err = h.store.Get(ctx, []byte(op.Key)) })
+		case "dump":
+			pm, pat = world.Guard(func() {
+				var d *db.Dumper
+				d, err = h.store.Dump(ctx, []byte(op.Key))
+				if err != nil {
+					return
+				}
+				for n := 0; n < 1000; n++ {
+					if k, _ := d.Next(ctx); k == nil {
+						break
+					}
+				}
+				err = d.Close()
+			})
 		case "start":
 			pm, pat = world.Guard(func() { err = h.store.Start(ctx) })
 		case "stop":
@@ -275,6 +297,9 @@ func runPgHistory(ops []pgOp, faults map[int]int) *pgResult {
 			pm, pat = world.Guard(func() { err = h.store.Close(ctx) })
 		}
 		faulted := faultSeen(before)
+		if op.Kind == "dump" && err != nil && !faulted && db.IsNotFound(err) {
+			err = nil // nothing to list at or after the key: how an empty listing is reported
+		}
 		e.trace = append(e.trace, fmt.Sprintf("%s -> err=%v faulted=%v", desc, err, faulted))
 		if pm != "" {
 			return bad("panic:"+pat, i, map[string]string{"site": pat}, "%s panicked: %s", desc, pm)
